@@ -64,7 +64,9 @@ def _case(draw):
     for _ in range(n):
         comps.append({"ftype": draw(st.sampled_from(types)), "reorg": draw(st.integers(5, 150)),
                       "cortime": draw(st.integers(20, 200)), "freq": draw(st.integers(100, 900)),
-                      "gamma": draw(st.integers(10, 80)), "matsubara": draw(st.integers(5, 40))})
+                      "gamma": draw(st.integers(10, 80)), "matsubara": draw(st.integers(5, 40)),
+                      # (overdamped spectral densities) the damping rate given instead of the correlation time
+                      "by_gamma": draw(st.sampled_from([False, False, True]))})
     return {"family": fam, "comps": comps, "tree": draw(_tree(n)), "T": draw(st.integers(77, 350)),
             "nt": draw(st.integers(100, 300)), "dt": draw(st.sampled_from([1.0, 2.0])),
             "u_make": draw(st.sampled_from(UNITS)), "u_read": draw(st.sampled_from(UNITS)),
@@ -83,12 +85,16 @@ def strategy(tier):
     return _case()
 
 
-def _params(c, T, unit):
+def _params(c, T, unit, sd=False):
     """parameter dictionary with energies expressed in `unit`"""
     cv = lambda x: float(orc.convert(x, "1/cm", unit))
     ft = c["ftype"]
     if ft in ("OverdampedBrownian", "OverdampedBrownian-HighTemperature"):
         p = dict(ftype=ft, reorg=cv(c["reorg"]), cortime=float(c["cortime"]), T=float(T))
+        if sd and c.get("by_gamma") and ft == "OverdampedBrownian":
+            # the rate 1/cortime is an energy-like quantity: given in the current units
+            del p["cortime"]
+            p["gamma"] = float(orc.from_internal(1.0 / float(c["cortime"]), unit))
         if ft == "OverdampedBrownian":
             p["matsubara"] = int(c["matsubara"])
         return p
@@ -109,7 +115,7 @@ def check_case(case, ctx):
 
     def make(i, Ti=None):
         with qr.energy_units(u):
-            return cls(ta, _params(comps[i], T if Ti is None else Ti, u))
+            return cls(ta, _params(comps[i], T if Ti is None else Ti, u, sd=(fam == "sd")))
 
     # ---- components alone: reference data ---------------------------------------------------------
     ok, singles = guarded(ctx, "construct", lambda: [make(i) for i in range(n)], fam)
@@ -120,6 +126,18 @@ def check_case(case, ctx):
     for i, s in enumerate(singles):
         ctx.close("declared-reorganisation-energy", s.lamb, lam_int[i], rtol=1e-7, where=fam + "/" + comps[i]["ftype"],
                   unit=u)
+
+    if fam == "sd":
+        # analytically defined overdamped densities: the closed form on the object's own axis, whatever the units and
+        # the parametrisation (correlation time or damping rate) at construction
+        for i, sgl in enumerate(singles):
+            if comps[i]["ftype"] == "OverdampedBrownian":
+                with qr.energy_units("int"):
+                    wax = numpy.array(sgl.axis.data)
+                want_j = orc.ob_spectral_density(wax, lam_int[i], float(comps[i]["cortime"]))
+                ctx.close("spectral-density/closed-form", ref_data[i], want_j, rtol=1e-9,
+                          scale=max(1e-300, float(numpy.max(numpy.abs(want_j)))),
+                          where="by-gamma" if comps[i].get("by_gamma") else "by-cortime", unit=u)
 
     # ---- temperature mismatch must be refused --------------------------------------------------------
     if case["t_mismatch"] is not None:
@@ -252,6 +270,15 @@ def check_case(case, ctx):
             if r[1] != len(leaves):
                 ctx.fail("sd-to-cf/number-of-components", where, got=r[1], want=len(leaves))
             ctx.label("sd-to-cf:n=%d" % min(len(leaves), 3))
+            # ... and the energy recovered from its values is the summed one, as far as the time axis resolves it
+            tmax = case["nt"] * case["dt"]
+            tcs = [float(comps[i]["cortime"]) for i in leaves]
+            # (the function comes from a numerical Fourier transform on this axis: twice the truncation and step terms
+            # of the analytic case, measured on the unchanged tree)
+            model_cf = 2.0 * math.exp(-tmax / max(tcs)) + 4.0 * case["dt"] / (math.pi * min(tcs)) + 0.03
+            if model_cf <= 0.25:
+                ctx.bound("sd-to-cf/measured-reorganisation-energy", abs(r[2] / wlam - 1.0), model_cf, where=where,
+                          n=len(leaves))
 
     # ---- single analytic functions ------------------------------------------------------------------------------
     c0 = comps[0]
@@ -286,4 +313,21 @@ def check_case(case, ctx):
                 sce = max(1e-30, float(numpy.max(numpy.abs(even))))
                 sco = max(1e-30, float(numpy.max(numpy.abs(odd))))
                 ctx.close("even-part-is-even", even[N // 2 + k], even[N // 2 - k], rtol=1e-9, scale=sce)
+                if n >= 2:
+                    # sums of Fourier parts: the left operand is used in two sums; both are right and it is unchanged
+                    def part_sums():
+                        fa = singles[0].get_EvenFTCorrelationFunction()
+                        fb = singles[1].get_EvenFTCorrelationFunction()
+                        fc = singles[n - 1].get_OddFTCorrelationFunction() if False else singles[n - 1].get_EvenFTCorrelationFunction()
+                        a0, b0, c0 = numpy.array(fa.data), numpy.array(fb.data), numpy.array(fc.data)
+                        s1 = fa + fb
+                        s2 = fa + fc
+                        return a0, b0, c0, numpy.array(s1.data), numpy.array(s2.data), numpy.array(fa.data)
+                    okp, ps = guarded(ctx, "fourier-parts/addition", part_sums, fam)
+                    if okp:
+                        a0, b0, c0, s1, s2, a1 = ps
+                        scp = max(1e-30, float(numpy.max(numpy.abs(a0))), float(numpy.max(numpy.abs(b0))))
+                        ctx.close("fourier-parts/sum", s1, a0 + b0, rtol=1e-12, scale=scp, where="first-sum")
+                        ctx.close("fourier-parts/sum", s2, a0 + c0, rtol=1e-12, scale=scp, where="second-sum-with-the-same-left-operand")
+                        ctx.close("fourier-parts/operand-unchanged", a1, a0, rtol=1e-12, scale=scp)
                 ctx.close("odd-part-is-odd", odd[N // 2 + k], -odd[N // 2 - k], rtol=1e-9, scale=sco)
